@@ -79,7 +79,10 @@ class PrinterTransactionContext(AbstractPrinter):  # pylint: disable=too-few-pub
 
         def get_info(bb: "BasicBlock") -> List[str]:
             # NOTE: use the first function for now as `init_tealer_from_single_contract` uses entire contract as single function.
-            bb = function_blocks.get(bb.idx, bb)
+            if bb.idx not in function_blocks:
+                # e.g. a subroutine that is only called from unreachable code is not part of the function
+                return []
+            bb = function_blocks[bb.idx]
             group_indices_str = self._repr_num_list(function.transaction_context(bb).group_indices)
             group_sizes_str = self._repr_num_list(function.transaction_context(bb).group_sizes)
             return [f"GroupIndex: {group_indices_str}", f"GroupSize: {group_sizes_str}"]
